@@ -3,7 +3,7 @@
 //! Exhaustive enumeration of brace lists (<= 3 distinct names from {A, B, S, U, _Default} in
 //! every order) and plain targets x levels x specifications x module paths on a real Logger
 //! whose additional writers are a recording LogWriter (A), a FileLogWriter with max_level Warn
-//! (B; later: ceilings Warn/Debug/Error by unit) and a SyslogWriter with max_log_level Warn (later: Warn/Error/Debug/Info by unit) on a unix datagram socket (S); plus the full
+//! (B; later: ceilings Warn/Debug/Error/Off by unit) and a SyslogWriter with max_log_level Warn (later: Warn/Error/Debug/Info by unit) on a unix datagram socket (S); plus the full
 //! Duplicate grid for stderr x stdout, at build time and through adapt_duplication_to_*.
 use super::{default_cap, Prop};
 use crate::capture::FdCapture;
@@ -37,7 +37,7 @@ fn meta() -> Meta {
     Meta {
         id: "C13",
         level: "exploration",
-        rule: "routing: every brace list of <= 4 (quick, 205 lists) / 5 (thorough, 325 lists) distinct names from {A, B, S, ' A' (unknown: names are taken verbatim, blanks included), _Default} in every order plus plain targets {m, m::x, other} x 5 levels x module path {m, other, absent} x specification {off, error, info, trace, off,m=debug} x primary {recording writer, file}; duplication: 7 x 7 Duplicate settings for stderr x stdout x 5 levels at build time, and every ordered pair (old, new) through adapt_duplication_to_stderr / _stdout; distinct_nontrivial = distinct (specification, primary, target, level, module path) probes that address at least one additional writer, plus duplication probes with a non-None setting; routing also through a logger without any additional writer; one more unit routes records while an additional FileLogWriter fails with ENOSPC on every write (what is addressed to it reaches nobody else); plus an auxiliary free-running pass (sampling) in which two threads adapt the two duplication levels at the same moment, 3000 / 40000 rounds",
+        rule: "routing: every brace list of <= 4 (quick, 205 lists) / 5 (thorough, 325 lists) distinct names from {A, B, S_Default (a registered name that merely contains _Default), ' A' (unknown: names are taken verbatim, blanks included), _Default} in every order plus plain targets {m, m::x, other} x 5 levels x module path {m, other, absent} x specification {off, error, info, trace, off,m=debug} x primary {recording writer, file}; duplication: 7 x 7 Duplicate settings for stderr x stdout x 5 levels at build time, and every ordered pair (old, new) through adapt_duplication_to_stderr / _stdout; distinct_nontrivial = distinct (specification, primary, target, level, module path) probes that address at least one additional writer, plus duplication probes with a non-None setting; routing also through a logger without any additional writer; one more unit routes records while an additional FileLogWriter fails with ENOSPC on every write (what is addressed to it reaches nobody else); plus an auxiliary free-running pass (sampling) in which two threads adapt the two duplication levels at the same moment, 3000 / 40000 rounds",
         assumptions: vec![
             "repeated names in one brace list are not enumerated (the statement does not define them)".into(),
             "stdout / stderr are observed by redirecting fd 1 / 2 of the worker process".into(),
@@ -46,7 +46,8 @@ fn meta() -> Meta {
 }
 
 // (the unknown name differs from a registered one by a blank only: names are taken verbatim)
-const NAMES: [&str; 5] = ["A", "B", "S", " A", "_Default"];
+// (the third writer is registered under a name that merely contains "_Default")
+const NAMES: [&str; 5] = ["A", "B", "S_Default", " A", "_Default"];
 const PLAIN: [&str; 3] = ["m", "m::x", "other"];
 const MODPATHS: [Option<&str>; 3] = [Some("m"), Some("other"), None];
 
@@ -306,7 +307,7 @@ fn drain_socket(s: &UnixDatagram) -> Vec<String> {
 fn routing(spec_idx: usize, file_primary: bool, with_writers: bool) -> Result<(u64, u64), Fail> {
     let spec = specs()[spec_idx].clone();
     // the ceilings of the file writer and of the syslog writer vary with the unit
-    let ceil_b = [LevelFilter::Warn, LevelFilter::Debug, LevelFilter::Error][spec_idx % 3];
+    let ceil_b = [LevelFilter::Warn, LevelFilter::Debug, LevelFilter::Error, LevelFilter::Off][spec_idx % 4];
     let ceil_s = [LevelFilter::Warn, LevelFilter::Error, LevelFilter::Debug, LevelFilter::Info][spec_idx % 4];
     let sc = Scratch::new("c13");
     let err = crate::scratch::root().join("err.log");
@@ -355,7 +356,7 @@ fn routing(spec_idx: usize, file_primary: bool, with_writers: bool) -> Result<(u
         lb.log_to_writer(Box::new(primary.clone()))
     };
     if with_writers {
-        lb = lb.add_writer("A", Box::new(a.clone())).add_writer("B", Box::new(b)).add_writer("S", s);
+        lb = lb.add_writer("A", Box::new(a.clone())).add_writer("B", Box::new(b)).add_writer("S_Default", s);
     }
     let (logger, handle) = lb
         .build()
@@ -391,14 +392,14 @@ fn routing(spec_idx: usize, file_primary: bool, with_writers: bool) -> Result<(u
                 let named = |n: &str| list.as_ref().is_some_and(|l| l.iter().any(|i| NAMES[*i] == n));
                 let want_a = usize::from(with_writers && named("A"));
                 let want_b = usize::from(with_writers && named("B") && level <= ceil_b);
-                let want_s = usize::from(with_writers && named("S") && level <= ceil_s);
+                let want_s = usize::from(with_writers && named("S_Default") && level <= ceil_s);
                 let want_p = usize::from(match list {
                     Some(_) => named("_Default") && spec.enabled(level, mp.unwrap_or("")),
                     None => spec.enabled(level, target),
                 });
                 let unknown = if with_writers { usize::from(named(" A")) } else { list.as_ref().map_or(0, |l| l.iter().filter(|i| NAMES[**i] != "_Default").count()) };
                 let want_e = unknown;
-                if list.is_some() && (named("A") || named("B") || named("S")) {
+                if list.is_some() && (named("A") || named("B") || named("S_Default")) {
                     addressed += 1;
                 }
                 let shape = match list {
@@ -411,7 +412,7 @@ fn routing(spec_idx: usize, file_primary: bool, with_writers: bool) -> Result<(u
                         let is_named = match who {
                             "custom" => named("A"),
                             "file" => named("B"),
-                            _ => named("S"),
+                            _ => named("S_Default"),
                         };
                         let clause = if !is_named {
                             "delivered-to-unnamed"
@@ -457,6 +458,11 @@ fn count_lines(b: &[u8]) -> usize {
     b.iter().filter(|x| **x == b'\n').count()
 }
 
+/// The format of the stdout duplicates (the stderr duplicates use the plain message).
+fn out_format(w: &mut dyn std::io::Write, _now: &mut flexi_logger::DeferredNow, record: &log::Record) -> std::io::Result<()> {
+    write!(w, "OUT|{}", record.args())
+}
+
 /// stderr setting fixed at build time, all stdout settings, all levels; with a primary writer that
 /// takes everything, with one whose own ceiling is Info (duplication does not depend on what the
 /// primary output accepts), with `do_not_log()` (documented: duplicates only), and each in the
@@ -469,7 +475,7 @@ fn duplication_build(d_err: Duplicate) -> Result<u64, Fail> {
         let variant = format!("{}{}", ["primary-takes-all", "primary-ceiling-info", "do_not_log"][prim], if mode { "/support-capture" } else { "" });
         for d_out in DUPS {
             let rec = Recorder::new(ceiling);
-            let mut lb = Logger::with(flexi_logger::LogSpecification::trace()).format(lg::payload_format);
+            let mut lb = Logger::with(flexi_logger::LogSpecification::trace()).format(lg::payload_format).format_for_stdout(out_format);
             lb = if prim == 2 { lb.do_not_log() } else { lb.log_to_writer(Box::new(rec.clone())) };
             if mode {
                 lb = lb.write_mode(flexi_logger::WriteMode::SupportCapture);
@@ -503,7 +509,7 @@ fn duplication_build(d_err: Duplicate) -> Result<u64, Fail> {
                         detail: format!("[{variant}] duplicate_to_stderr({d_err:?}) duplicate_to_stdout({d_out:?}) level {level}: {ge} line(s) on stderr (expected {we}), {go} on stdout (expected {wo})"),
                     });
                 }
-                if (ge == 1 && errb != b"dupmsg\n") || (go == 1 && out != b"dupmsg\n") {
+                if (ge == 1 && errb != b"dupmsg\n") || (go == 1 && out != b"OUT|dupmsg\n") {
                     return Err(Fail {
                         clause: "dup-wrong",
                         cause: if mode { "content/support-capture".into() } else { "content".into() },
